@@ -13,17 +13,22 @@ thread_local! {
 }
 static N: AtomicU32 = AtomicU32::new(0);
 
-struct W {
-    c: Conn,
-    sub: u32,
-    item: u32,
-    item2: u32,
-    cp: ByteString,
-    tag: u32,
-    seq_seen: u32,
+/// What the abstract parameter classes of Services.tla name in one session's world.
+pub struct Names {
+    pub sub: u32,
+    pub item: u32,
+    pub item2: u32,
+    pub cp: ByteString,
+    pub tag: u32,
+    pub seq_seen: u32,
 }
 
-fn nid(w: &W, k: &str) -> NodeId {
+struct W {
+    c: Conn,
+    n: Names,
+}
+
+fn nid(w: &Names, k: &str) -> NodeId {
     match k {
         "var" => NodeId::new(2, format!("svc-var-{}", w.tag)),
         "str" => NodeId::new(2, format!("svc-str-{}", w.tag)),
@@ -57,7 +62,7 @@ fn attr(k: &str) -> u32 {
 fn range(k: &str) -> UAString {
     if k == "none" { UAString::null() } else { UAString::from(k) }
 }
-fn reft(w: &W, k: &str) -> NodeId {
+fn reft(w: &Names, k: &str) -> NodeId {
     match k {
         "HasSubtype" => ReferenceTypeId::HasSubtype.into(),
         "rt1" => nid(w, "rt1"),
@@ -141,7 +146,7 @@ fn filter(k: &str) -> ExtensionObject {
     }
 }
 
-fn sub_id(w: &W, k: &str) -> Option<Vec<u32>> {
+fn sub_id(w: &Names, k: &str) -> Option<Vec<u32>> {
     match k {
         "live" => Some(vec![w.sub]),
         "bogus" => Some(vec![987654]),
@@ -149,10 +154,10 @@ fn sub_id(w: &W, k: &str) -> Option<Vec<u32>> {
     }
 }
 
-fn build(w: &mut W, r: &Value) -> SupportedMessage {
-    let h = w.c.header();
+/// The concrete request of an abstract request of Services.tla (h = the request header to use).
+pub fn build_req(h: RequestHeader, w: &Names, r: &Value) -> SupportedMessage {
     let s = |k: &str| gets(r, k).to_string();
-    let rv = |w: &W, n: &str, a: &str, rg: &str| ReadValueId { node_id: nid(w, n), attribute_id: attr(a), index_range: range(rg), data_encoding: QualifiedName::null() };
+    let rv = |w: &Names, n: &str, a: &str, rg: &str| ReadValueId { node_id: nid(w, n), attribute_id: attr(a), index_range: range(rg), data_encoding: QualifiedName::null() };
     match gets(r, "svc") {
         "Read" => ReadRequest { request_header: h, max_age: 0.0, timestamps_to_return: TimestampsToReturn::Both, nodes_to_read: Some(vec![rv(w, &s("node"), &s("attr"), &s("range"))]) }.into(),
         "Write" => {
@@ -284,53 +289,72 @@ fn build(w: &mut W, r: &Value) -> SupportedMessage {
     }
 }
 
+/// The nodes the parameter classes name: a folder with an Int32 and a String variable, a removable object, a
+/// HasComponent cycle, two data types and a variable of such a type.
+pub fn make_nodes(a: &mut AddressSpace, w: &Names) {
+    let tag = w.tag;
+    let obj = nid(w, "obj");
+    let _ = a.add_folder_with_id(&obj, format!("svcobj{}", tag), "svcobj", &NodeId::objects_folder_id());
+    let _ = VariableBuilder::new(&nid(w, "var"), format!("var{}", tag), "").data_type(DataTypeId::Int32).organized_by(&obj).value(1i32).writable().insert(a);
+    let _ = VariableBuilder::new(&nid(w, "str"), format!("str{}", tag), "").data_type(DataTypeId::String).organized_by(&obj).value("aé€b").writable().insert(a);
+    let _ = ObjectBuilder::new(&nid(w, "added"), "dupname", "dupname").organized_by(&obj).insert(a);
+    let c1 = nid(w, "cyc");
+    let c2 = NodeId::new(2, format!("svc-cyc2-{}", tag));
+    let _ = ObjectBuilder::new(&c1, format!("c1{}", tag), "c1").organized_by(&obj).insert(a);
+    let _ = ObjectBuilder::new(&c2, format!("c2{}", tag), "c2").insert(a);
+    a.insert_reference(&c1, &c2, ReferenceTypeId::HasComponent);
+    a.insert_reference(&c2, &c1, ReferenceTypeId::HasComponent);
+    // per-session data type nodes (not linked under the standard hierarchy, so that what a case does to them stays in the case)
+    let _ = DataTypeBuilder::new(&nid(w, "dt1"), format!("dt1{}", tag), "dt1").insert(a);
+    let _ = DataTypeBuilder::new(&nid(w, "dt2"), format!("dt2{}", tag), "dt2").insert(a);
+    a.insert_reference(&nid(w, "dt1"), &nid(w, "dt2"), ReferenceTypeId::HasSubtype);
+    let _ = VariableBuilder::new(&nid(w, "vardt"), format!("vardt{}", tag), "").data_type(nid(w, "dt1")).organized_by(&obj).value(1i32).writable().insert(a);
+}
+
+/// What a case did to the standard reference type hierarchy is undone (the server is shared by the cases of a process).
+pub fn undo_type_changes(a: &mut AddressSpace) {
+    let (rt1, rt2): (NodeId, NodeId) = (ReferenceTypeId::HasEventSource.into(), ReferenceTypeId::HasNotifier.into());
+    let _ = a.delete_reference(&rt2, &rt1, ReferenceTypeId::HasSubtype);
+}
+
+/// The requests that give a session its live subscription, two monitored items and a browse continuation point.
+pub fn live_objects(w: &mut Names, call1: &mut dyn FnMut(&dyn Fn(RequestHeader) -> SupportedMessage) -> SupportedMessage) {
+    if let SupportedMessage::CreateSubscriptionResponse(r) = call1(&|h| CreateSubscriptionRequest { request_header: h, requested_publishing_interval: 100.0, requested_lifetime_count: 30, requested_max_keep_alive_count: 10, max_notifications_per_publish: 0, publishing_enabled: true, priority: 0 }.into()) {
+        w.sub = r.subscription_id;
+    }
+    let mk = |w: &Names, ch: u32, n: &str| MonitoredItemCreateRequest { item_to_monitor: ReadValueId { node_id: nid(w, n), attribute_id: AttributeId::Value as u32, index_range: UAString::null(), data_encoding: QualifiedName::null() }, monitoring_mode: MonitoringMode::Reporting,
+        requested_parameters: MonitoringParameters { client_handle: ch, sampling_interval: -1.0, filter: ExtensionObject::null(), queue_size: 2, discard_oldest: true } };
+    let items = vec![mk(w, 1, "var"), mk(w, 2, "str")];
+    let sub = w.sub;
+    if let SupportedMessage::CreateMonitoredItemsResponse(r) = call1(&|h| CreateMonitoredItemsRequest { request_header: h, subscription_id: sub, timestamps_to_return: TimestampsToReturn::Both, items_to_create: Some(items.clone()) }.into()) {
+        let v = r.results.unwrap_or_default();
+        w.item = v.first().map(|x| x.monitored_item_id).unwrap_or(0);
+        w.item2 = v.get(1).map(|x| x.monitored_item_id).unwrap_or(0);
+    }
+    // a live browse continuation point
+    if let SupportedMessage::BrowseResponse(r) = call1(&|h| BrowseRequest { request_header: h, view: ViewDescription { view_id: NodeId::null(), timestamp: DateTime::null(), view_version: 0 }, requested_max_references_per_node: 1,
+        nodes_to_browse: Some(vec![BrowseDescription { node_id: ObjectId::Server.into(), browse_direction: BrowseDirection::Forward, reference_type_id: ReferenceTypeId::HierarchicalReferences.into(), include_subtypes: true, node_class_mask: 0, result_mask: 0x3f }]) }.into()) {
+        w.cp = r.results.unwrap_or_default().first().map(|x| x.continuation_point.clone()).unwrap_or_else(ByteString::null);
+    }
+}
+
 fn setup(srv: &Srv) -> Option<W> {
     let mut c = srv.connect();
     if !c.open_session() {
         return None;
     }
     let tag = N.fetch_add(1, Ordering::SeqCst) + std::process::id() * 1000;
-    let mut w = W { c, sub: 0, item: 0, item2: 0, cp: ByteString::null(), tag, seq_seen: 0 };
+    let mut w = W { c, n: Names { sub: 0, item: 0, item2: 0, cp: ByteString::null(), tag, seq_seen: 0 } };
     {
         let a = srv.server.address_space();
         let mut a = a.write();
-        let obj = nid(&w, "obj");
-        let _ = a.add_folder_with_id(&obj, format!("svcobj{}", tag), "svcobj", &NodeId::objects_folder_id());
-        let _ = VariableBuilder::new(&nid(&w, "var"), format!("var{}", tag), "").data_type(DataTypeId::Int32).organized_by(&obj).value(1i32).writable().insert(&mut a);
-        let _ = VariableBuilder::new(&nid(&w, "str"), format!("str{}", tag), "").data_type(DataTypeId::String).organized_by(&obj).value("aé€b").writable().insert(&mut a);
-        let _ = ObjectBuilder::new(&nid(&w, "added"), "dupname", "dupname").organized_by(&obj).insert(&mut a);
-        let c1 = nid(&w, "cyc");
-        let c2 = NodeId::new(2, format!("svc-cyc2-{}", tag));
-        let _ = ObjectBuilder::new(&c1, format!("c1{}", tag), "c1").organized_by(&obj).insert(&mut a);
-        let _ = ObjectBuilder::new(&c2, format!("c2{}", tag), "c2").insert(&mut a);
-        a.insert_reference(&c1, &c2, ReferenceTypeId::HasComponent);
-        a.insert_reference(&c2, &c1, ReferenceTypeId::HasComponent);
-        // per-session data type nodes (not linked under the standard hierarchy, so that what a case does to them stays in the case)
-        let _ = DataTypeBuilder::new(&nid(&w, "dt1"), format!("dt1{}", tag), "dt1").insert(&mut a);
-        let _ = DataTypeBuilder::new(&nid(&w, "dt2"), format!("dt2{}", tag), "dt2").insert(&mut a);
-        a.insert_reference(&nid(&w, "dt1"), &nid(&w, "dt2"), ReferenceTypeId::HasSubtype);
-        let _ = VariableBuilder::new(&nid(&w, "vardt"), format!("vardt{}", tag), "").data_type(nid(&w, "dt1")).organized_by(&obj).value(1i32).writable().insert(&mut a);
+        make_nodes(&mut a, &w.n);
     }
-    let h = w.c.header();
-    if let SupportedMessage::CreateSubscriptionResponse(r) = w.c.call1(CreateSubscriptionRequest { request_header: h, requested_publishing_interval: 100.0, requested_lifetime_count: 30, requested_max_keep_alive_count: 10, max_notifications_per_publish: 0, publishing_enabled: true, priority: 0 }.into()) {
-        w.sub = r.subscription_id;
-    }
-    let mk = |w: &W, ch: u32, n: &str| MonitoredItemCreateRequest { item_to_monitor: ReadValueId { node_id: nid(w, n), attribute_id: AttributeId::Value as u32, index_range: UAString::null(), data_encoding: QualifiedName::null() }, monitoring_mode: MonitoringMode::Reporting,
-        requested_parameters: MonitoringParameters { client_handle: ch, sampling_interval: -1.0, filter: ExtensionObject::null(), queue_size: 2, discard_oldest: true } };
-    let h = w.c.header();
-    let req = CreateMonitoredItemsRequest { request_header: h, subscription_id: w.sub, timestamps_to_return: TimestampsToReturn::Both, items_to_create: Some(vec![mk(&w, 1, "var"), mk(&w, 2, "str")]) };
-    if let SupportedMessage::CreateMonitoredItemsResponse(r) = w.c.call1(req.into()) {
-        let v = r.results.unwrap_or_default();
-        w.item = v.first().map(|x| x.monitored_item_id).unwrap_or(0);
-        w.item2 = v.get(1).map(|x| x.monitored_item_id).unwrap_or(0);
-    }
-    // a live browse continuation point
-    let h = w.c.header();
-    let req = BrowseRequest { request_header: h, view: ViewDescription { view_id: NodeId::null(), timestamp: DateTime::null(), view_version: 0 }, requested_max_references_per_node: 1,
-        nodes_to_browse: Some(vec![BrowseDescription { node_id: ObjectId::Server.into(), browse_direction: BrowseDirection::Forward, reference_type_id: ReferenceTypeId::HierarchicalReferences.into(), include_subtypes: true, node_class_mask: 0, result_mask: 0x3f }]) };
-    if let SupportedMessage::BrowseResponse(r) = w.c.call1(req.into()) {
-        w.cp = r.results.unwrap_or_default().first().map(|x| x.continuation_point.clone()).unwrap_or_else(ByteString::null);
-    }
+    let W { c, n } = &mut w;
+    live_objects(n, &mut |mkreq| {
+        let h = c.header();
+        c.call1(mkreq(h))
+    });
     Some(w)
 }
 
@@ -347,7 +371,8 @@ pub fn run_case(case: &Value, out: &mut Obs) {
         let empty = vec![];
         for (i, r) in case.get("steps").and_then(|s| s.as_array()).unwrap_or(&empty).iter().enumerate() {
             let res = guard(|| {
-                let m = build(&mut w, r);
+                let h = w.c.header();
+                let m = build_req(h, &w.n, r);
                 let is_publish = matches!(m, SupportedMessage::PublishRequest(_));
                 let resp = w.c.call(m);
                 let kind = match resp.first() {
@@ -360,7 +385,7 @@ pub fn run_case(case: &Value, out: &mut Obs) {
                 let (_r, outs) = w.c.t.verif_tick(&now);
                 for (_, m) in &outs {
                     if let SupportedMessage::PublishResponse(p) = m {
-                        w.seq_seen = p.notification_message.sequence_number;
+                        w.n.seq_seen = p.notification_message.sequence_number;
                     }
                 }
                 let now2 = now + chrono::Duration::milliseconds(500);
@@ -386,8 +411,7 @@ pub fn run_case(case: &Value, out: &mut Obs) {
         let _ = guard(|| {
             let a = srv.server.address_space();
             let mut a = a.write();
-            let (rt1, rt2): (NodeId, NodeId) = (ReferenceTypeId::HasEventSource.into(), ReferenceTypeId::HasNotifier.into());
-            let _ = a.delete_reference(&rt2, &rt1, ReferenceTypeId::HasSubtype);
+            undo_type_changes(&mut a);
         });
     });
 }
